@@ -115,19 +115,19 @@ func decTargets() []decTarget {
 				err := json.Unmarshal(b, &x)
 				return nil, err
 			}},
-		{"tableupdates", "", func(w *wgen) interface{} { return tree(w.rowUpdates()) },
+		{"tableupdates", "TRu", func(w *wgen) interface{} { return tree(w.rowUpdates()) },
 			func(b []byte) (interface{}, error) {
 				var x ovsdb.TableUpdates
 				err := json.Unmarshal(b, &x)
 				return nil, err
 			}},
-		{"tableupdates2", "", func(w *wgen) interface{} { return tree(w.rowUpdates2()) },
+		{"tableupdates2", "TRu2", func(w *wgen) interface{} { return tree(w.rowUpdates2()) },
 			func(b []byte) (interface{}, error) {
 				var x ovsdb.TableUpdates2
 				err := json.Unmarshal(b, &x)
 				return nil, err
 			}},
-		{"monitor_cond_since_reply", "", func(w *wgen) interface{} {
+		{"monitor_cond_since_reply", "TSince", func(w *wgen) interface{} {
 			return tree(ovsdb.MonitorCondSinceReply{Found: w.g.Chance(0.5), LastTransactionID: gen.UUIDn(2), Updates: w.rowUpdates2()})
 		},
 			func(b []byte) (interface{}, error) {
@@ -144,13 +144,13 @@ func decTargets() []decTarget {
 				_, err := json.Marshal(x)
 				return nil, err
 			}},
-		{"result", "", func(w *wgen) interface{} { return tree(w.result()) },
+		{"result", "TRes", func(w *wgen) interface{} { return tree(w.result()) },
 			func(b []byte) (interface{}, error) {
 				var x ovsdb.OperationResult
 				err := json.Unmarshal(b, &x)
 				return nil, err
 			}},
-		{"monitor_request", "", func(w *wgen) interface{} { return tree(w.monitorRequest()) },
+		{"monitor_request", "TMon", func(w *wgen) interface{} { return tree(w.monitorRequest()) },
 			func(b []byte) (interface{}, error) {
 				var x ovsdb.MonitorRequest
 				err := json.Unmarshal(b, &x)
@@ -158,6 +158,9 @@ func decTargets() []decTarget {
 			}},
 	}
 }
+
+// lateTargets: the message decoders of coq/Wire/Messages.v; model and implementation are compared on the outcome class.
+var lateTargets = map[string]bool{"TRu": true, "TRu2": true, "TSince": true, "TRes": true, "TMon": true}
 
 // guarded runs f and classifies: 0 value, 1 error, 2 panic.
 func guarded(f func() (interface{}, error)) (out interface{}, class int, msg string) {
@@ -353,8 +356,8 @@ func driveC19(o opts) error {
 	}
 	for i := 0; i < nDec; i++ {
 		t := targets[g.Intn(len(targets))]
-		if t.coq == "" && g.Chance(0.5) {
-			t = targets[g.Intn(9)] // favour the modelled decoders
+		if (t.coq == "" || lateTargets[t.coq]) && g.Chance(0.5) {
+			t = targets[g.Intn(9)] // favour the decoders modelled first (the draw is as it was before the message decoders were)
 		}
 		tree := t.valid(wg)
 		nc := []int{0, 1, 1, 1, 2, 3}[g.Intn(6)]
@@ -388,7 +391,7 @@ func driveC19(o opts) error {
 			continue
 		}
 		outTerm := "GNull"
-		if class == 0 {
+		if class == 0 && !lateTargets[t.coq] {
 			outTerm = gvalTerm(syms, out)
 		}
 		w.Add(emit.Case{
